@@ -44,6 +44,7 @@ impl<'a> StateMachine<'a> {
     //@|     r == Ok::<bool, std::io::Error>(true) ==> (diff_stat_claims(old(self)) matches Some(x) && final(self).painter.writer.hist() ==
     //@|         old(self).painter.writer.hist().push(Ev::Flush(old(self).painter.output_buffer@)).push(Ev::Text(""@ + x + ""@, true))),  // @C04,C19:a.diff.stat.line.is.written.once.as.its.replacement.after.what.was.rendered.before
     //@|     r.is_ok() ==> final(self).painter.minus_lines@ == old(self).painter.minus_lines@ && final(self).painter.plus_lines@ == old(self).painter.plus_lines@,
+    //@|     r.is_ok() && diff_stat_claims(old(self)) is Some ==> r == Ok::<bool, std::io::Error>(true),  // @C04:a.diff.stat.line.that.has.been.rewritten.is.claimed.so.that.it.is.not.written.again
     //@rewrite <<<self.config.cwd_relative_to_repo_root.as_deref()>>> => <<<verif_as_deref(&self.config.cwd_relative_to_repo_root)>>>
 
     //@ stub src/handlers/mod.rs StateMachine::handle_additional_cases spec=diff_header.handle_additional_cases
